@@ -43,6 +43,43 @@ where
     pub(crate) metrics: Arc<CountMetrics>,
     /// thread pool for the store
     pub(crate) pool: Mutex<Option<ThreadPool>>,
+    /// effects, thunks and tasks handed to the pool and not finished yet
+    pub(crate) pending_tasks: Arc<PendingTasks>,
+}
+
+/// Counts the tasks handed to the pool until they have finished, so that `stop()` can wait for
+/// them: the pool's own join may return while a worker that has just taken a queued task has not
+/// marked itself busy yet.
+#[derive(Default)]
+pub(crate) struct PendingTasks {
+    count: Mutex<usize>,
+    done: std::sync::Condvar,
+}
+
+/// Registers a task on creation and releases it when dropped, i.e. when the task has run,
+/// panicked or been discarded.
+pub(crate) struct PendingTask(Arc<PendingTasks>);
+
+impl PendingTask {
+    pub(crate) fn new(pending: &Arc<PendingTasks>) -> Self {
+        *pending.count.lock().unwrap_or_else(|e| e.into_inner()) += 1;
+        PendingTask(pending.clone())
+    }
+}
+
+impl Drop for PendingTask {
+    fn drop(&mut self) {
+        *self.0.count.lock().unwrap_or_else(|e| e.into_inner()) -= 1;
+        self.0.done.notify_all();
+    }
+}
+
+impl PendingTasks {
+    /// wait until every registered task has finished, or the timeout expires
+    fn wait(&self, timeout: Duration) {
+        let count = self.count.lock().unwrap_or_else(|e| e.into_inner());
+        let _ = self.done.wait_timeout_while(count, timeout, |n| *n > 0);
+    }
 }
 
 /// Subscription for a subscriber
@@ -127,6 +164,7 @@ where
             pool: Mutex::new(Some(
                 rusty_pool::Builder::new().name(format!("{}-pool", name)).build(),
             )),
+            pending_tasks: Arc::new(PendingTasks::default()),
         };
 
         // start a thread in which the store will listen for actions
@@ -519,12 +557,15 @@ where
         let pool_took = self.pool.lock().unwrap().take();
         // unlock pool
         if let Some(pool) = pool_took {
+            let deadline = Instant::now() + Duration::from_secs(3);
             if cfg!(dev) {
                 // wait forever
                 pool.shutdown_join();
             } else {
                 pool.shutdown_join_timeout(Duration::from_secs(3));
             }
+            // effects submitted before the pool was taken have finished when stop() returns
+            self.pending_tasks.wait(deadline.saturating_duration_since(Instant::now()));
             #[cfg(dev)]
             eprintln!("store: shutdown pool");
         }
